@@ -188,6 +188,8 @@ func Statement(field string, kvs []string) string {
 	if iv := kv["int"]; iv != "" && iv != "0" {
 		if o := kv["offs"]; o != "" && o != "0" {
 			gb = append(gb, fmt.Sprintf("time(%ss, %ss)", iv, o))
+		} else if o := kv["noffs"]; o != "" && o != "0" {
+			gb = append(gb, fmt.Sprintf("time(%ss, -%ss)", iv, o))
 		} else {
 			gb = append(gb, fmt.Sprintf("time(%ss)", iv))
 		}
@@ -314,19 +316,36 @@ func (Prop) RunImpl(c fw.Case) []string { return RunOps(c.Ops) }
 
 var hosts = []string{"a", "b", "-"}
 
-func genCase(r *fw.Rand) fw.Case {
+func genCase(r *fw.Rand) fw.Case { return genCaseKind(r, 0) }
+
+// genCaseKind: kind 1 = many series (more than the 16 cores a shard's cursors are spread over)
+// under one tag set; kind 2 = several series of one group sharing timestamps, queried only
+// with statements whose winner is then defined (count/sum/mean/spread/median, and the
+// selectors under GROUP BY time, where the reducers break the tie on the value)
+func genCaseKind(r *fw.Rand, kind int) fw.Case {
 	ops := []string{"qreset"}
 	np := 5 + r.Intn(40)
 	span := int64(20 + r.Intn(200))
+	hosts := hosts
+	if kind == 1 {
+		hosts = nil
+		for i, n := 0, 17+r.Intn(30); i < n; i++ {
+			hosts = append(hosts, fmt.Sprintf("h%02d", i))
+		}
+		np = len(hosts) + r.Intn(40)
+	}
 	// no two series share a timestamp for the same field: selectors and raw selects over
 	// several series would otherwise have no defined winner / row order
 	used := map[string]string{}
 	for i := 0; i < np; i++ {
 		field := []string{"n", "v"}[r.Intn(2)]
 		t := int64(r.Intn(int(span)))
-		h := hosts[r.Intn(3)]
+		h := hosts[r.Intn(len(hosts))]
+		if kind == 1 && i < len(hosts) {
+			h = hosts[i] // every series has a point
+		}
 		key := fmt.Sprintf("%s/%d", field, t)
-		if prev, ok := used[key]; ok {
+		if prev, ok := used[key]; ok && kind != 2 {
 			h = prev
 		}
 		used[key] = h
@@ -338,24 +357,38 @@ func genCase(r *fw.Rand) fw.Case {
 			continue
 		}
 		ops = append(ops, fmt.Sprintf("put %s %s %d %d", field, h, t, r.Intn(4096)-1024))
+		if kind == 2 && r.Intn(2) == 0 {
+			// the same instant in another series of the group
+			for _, h2 := range hosts {
+				if h2 != h && r.Intn(2) == 0 {
+					ops = append(ops, fmt.Sprintf("put %s %s %d %d", field, h2, t, r.Intn(4096)-1024))
+				}
+			}
+		}
 	}
 	fns := []string{"raw", "count", "sum", "mean", "min", "max", "first", "last", "spread", "median"}
 	for k := 0; k < 6+r.Intn(8); k++ {
 		field := []string{"n", "v"}[r.Intn(2)]
 		fn := fns[r.Intn(len(fns))]
+		if kind == 2 && (fn == "raw" || fn == "min" || fn == "max") {
+			fn = []string{"first", "last", "count", "sum"}[r.Intn(4)]
+		}
 		lo := int64(r.Intn(int(span)/2+1)) - 5
 		hi := lo + int64(r.Intn(int(span))) + 1
 		kv := []string{"fn=" + fn, fmt.Sprintf("lo=%d", lo), fmt.Sprintf("hi=%d", hi)}
 		if r.Intn(4) == 0 {
-			kv = append(kv, "host="+hosts[r.Intn(3)])
+			kv = append(kv, "host="+hosts[r.Intn(len(hosts))])
 		}
 		grouped := false
-		if fn != "raw" && r.Intn(3) > 0 {
+		if fn != "raw" && (r.Intn(3) > 0 || kind == 2 && (fn == "first" || fn == "last")) {
 			grouped = true
 			iv := []int{3, 7, 10, 16, 25, 60}[r.Intn(6)]
 			kv = append(kv, fmt.Sprintf("int=%d", iv))
-			if r.Intn(3) == 0 {
+			switch r.Intn(5) {
+			case 0, 1:
 				kv = append(kv, fmt.Sprintf("offs=%d", 1+r.Intn(iv-1)))
+			case 2:
+				kv = append(kv, fmt.Sprintf("noffs=%d", 1+r.Intn(iv-1)))
 			}
 			kv = append(kv, "fill="+[]string{"none", "null", "null", "7", "previous", "linear"}[r.Intn(6)])
 		}
@@ -370,7 +403,9 @@ func genCase(r *fw.Rand) fw.Case {
 			kv = append(kv, "desc=1")
 		}
 		if (grouped || fn == "raw") && r.Intn(4) == 0 {
-			kv = append(kv, fmt.Sprintf("limit=%d", 1+r.Intn(5)))
+			if r.Intn(4) > 0 {
+				kv = append(kv, fmt.Sprintf("limit=%d", 1+r.Intn(5)))
+			}
 			if r.Intn(2) == 0 {
 				kv = append(kv, fmt.Sprintf("off=%d", r.Intn(4)))
 			}
@@ -391,6 +426,12 @@ func (Prop) Generate(r *fw.Rand, tier string) []fw.Case {
 	var cases []fw.Case
 	for i := 0; i < n; i++ {
 		cases = append(cases, genCase(r.Fork()))
+		if i%4 == 0 {
+			cases = append(cases, genCaseKind(r.Fork(), 1))
+		}
+		if i%4 == 2 {
+			cases = append(cases, genCaseKind(r.Fork(), 2))
+		}
 	}
 	return cases
 }
